@@ -544,3 +544,129 @@ Proof.
     - unfold qv_upd. rewrite E. reflexivity. }
   perm_lia.
 Qed.
+
+(* ------------------------------------------------------------------ *)
+(* ending a connection *)
+Lemma adel_aset_key {K V} (keqb : K -> K -> bool) (spec : forall a b, keqb a b = true <-> a = b) k (x : V) l :
+  adel keqb k (aset keqb k x l) = adel keqb k l.
+Proof.
+  induction l as [|[k0 x0] t IH]; cbn.
+  - rewrite (proj2 (spec k k) eq_refl). reflexivity.
+  - destruct (keqb k k0) eqn:E; cbn.
+    + rewrite (proj2 (spec k k) eq_refl). reflexivity.
+    + rewrite E, IH. reflexivity.
+Qed.
+Lemma adel_cv_set c h x (v : cview) : adel N.eqb c (cv_set c h x v) = adel N.eqb c v.
+Proof. unfold cv_set. destruct (alookup N.eqb c v) as [[st chs]|]; auto. apply (adel_aset_key N.eqb Neqb_spec). Qed.
+
+Definition conn_au (e : np) : list unacked := flat_map (fun he : N * cp => snd (snd he)) (snd e).
+Lemma au_adel (v : cview) c e : NoDup (map fst v) -> alookup N.eqb c v = Some e ->
+  Permutation (au v) (au (adel N.eqb c v) ++ conn_au e).
+Proof.
+  intros Hnd H. destruct (adel_split N.eqb Neqb_spec c e v Hnd H) as (l1 & l2 & E1 & E2). rewrite E2. rewrite E1 at 1.
+  rewrite !au_app. change (au ((c, e) :: l2)) with (conn_au e ++ au l2).
+  rewrite <- !app_assoc. apply Permutation_app_head. apply Permutation_app_comm.
+Qed.
+Lemma in_au_adel (v : cview) c u : In u (au (adel N.eqb c v)) -> In u (au v).
+Proof.
+  intros H. apply in_au in H. destruct H as (c' & st & chs & h & b & l & H1 & H2 & H3). apply in_au.
+  exists c', st, chs, h, b, l. split; auto. eapply in_adel; eauto.
+Qed.
+
+Lemma VInv_adel_conn cw qw nq c :
+  VInv cw qw nq -> (forall n p, In (n, p) qw -> p_excl p = true -> p_owner p <> c) -> VInv (adel N.eqb c cw) qw nq.
+Proof.
+  intros [A1 A2 A3 A4 A5 A6 A7 A8 A9 A10] Hown.
+  assert (Hin : forall e, In e (adel N.eqb c cw) -> In e cw) by (intros; eapply in_adel; eauto).
+  constructor; auto.
+  - rewrite adel_filter. clear -A1. induction cw as [|[k p] t IH]; cbn in *; auto. inversion A1; subst.
+    destruct (negb (c =? k)); cbn; auto. constructor; auto. intros Hx. apply H1. apply in_map_iff in Hx.
+    destruct Hx as (e & E & He). apply filter_In in He. rewrite <- E. apply in_map. tauto.
+  - intros c' st chs H. eauto.
+  - intros u Hu. apply A6. eapply in_au_adel; eauto.
+  - intros c' st chs H. eauto.
+  - intros n p Hp He. pose proof (A8 n p Hp He) as Ho. unfold opened in *. rewrite (alookup_adel N.eqb Neqb_spec).
+    destruct (p_owner p =? c) eqn:E; auto. apply N.eqb_eq in E. exfalso. eapply Hown; eauto.
+  - intros c' st chs h b l H. eauto.
+Qed.
+
+Lemma qids_unique_ops (v : qview) n p n' p' : NoDup (qids v) -> In (n, p) v -> In (n', p') v -> p_id p = p_id p' -> n = n'.
+Proof.
+  unfold qids. induction v as [|[k x] t IH]; cbn; [tauto|]. intros Hnd H1 H2 E. inversion Hnd; subst.
+  destruct H1 as [H1|H1], H2 as [H2|H2].
+  - congruence.
+  - inversion H1; subst. exfalso. apply H3. rewrite E. apply (in_map (fun e => p_id (snd e)) _ _ H2).
+  - inversion H2; subst. exfalso. apply H3. rewrite <- E. apply (in_map (fun e => p_id (snd e)) _ _ H1).
+  - eauto.
+Qed.
+
+(* deleting a set of queues *)
+Lemma fold_adel_filter names : forall v : qview,
+  fold_left (fun v qn => adel seqb qn v) names v = filter (fun e => negb (existsb (seqb (fst e)) names)) v.
+Proof.
+  induction names as [|qn t IH]; intros v; cbn [fold_left existsb].
+  - induction v as [|e v IHv]; cbn; auto. f_equal. exact IHv.
+  - rewrite IH. rewrite adel_filter. induction v as [|e v IHv]; cbn; auto.
+    replace (seqb (fst e) qn) with (seqb qn (fst e)) by (unfold seqb; apply String.eqb_sym).
+    destruct (seqb qn (fst e)); cbn; auto.
+    destruct (existsb (seqb (fst e)) t); cbn; auto. f_equal. exact IHv.
+Qed.
+
+Lemma VInv_fold_adel cw nq names : forall qw : qview, VInv cw qw nq -> VInv cw (fold_left (fun v qn => adel seqb qn v) names qw) nq.
+Proof. induction names as [|qn t IH]; intros qw V; cbn; auto. apply IH. apply VInv_adel. exact V. Qed.
+
+Lemma names_of_filter (P : string * qp -> bool) (v : qview) e : NoDup (map fst v) -> In e v ->
+  existsb (seqb (fst e)) (map fst (filter P v)) = P e.
+Proof.
+  intros Hnd Hin. destruct (P e) eqn:Ep.
+  - apply existsb_exists. exists (fst e). split; [|apply seqb_refl]. apply in_map. apply filter_In. auto.
+  - apply Bool.not_true_is_false. intros Hx. apply existsb_exists in Hx. destruct Hx as (n & Hn & En). apply seqb_spec in En. subst n.
+    apply in_map_iff in Hn. destruct Hn as (e' & Ef & He'). apply filter_In in He'. destruct He' as [He' Hp'].
+    assert (e' = e).
+    { destruct e as [k x], e' as [k' x']. cbn in Ef. subst k'.
+      pose proof (nodup_in_alookup seqb seqb_spec _ _ _ Hnd Hin) as L1. pose proof (nodup_in_alookup seqb seqb_spec _ _ _ Hnd He') as L2. congruence. }
+    subst. congruence.
+Qed.
+
+Lemma rdy_filter_gone (f : string * qp -> bool) (v : qview) n p qid :
+  NoDup (qids v) -> In (n, p) v -> p_id p = qid -> f (n, p) = false -> rdy (filter f v) qid = [].
+Proof.
+  intros Hnd Hin Hid Hf. apply alive_false_rdy. apply Bool.not_true_is_false. intros Ha. apply alive_in in Ha.
+  destruct Ha as (n' & p' & Hi & E). apply filter_In in Hi. destruct Hi as [Hi Hf'].
+  assert (n' = n) by (eapply (qids_unique_ops v); eauto; congruence). subst n'.
+  assert (p' = p).
+  { clear -Hnd Hin Hi E Hid. unfold qids in Hnd. induction v as [|[k x] t IH]; cbn in *; [tauto|]. inversion Hnd; subst.
+    destruct Hin as [G1|G1], Hi as [G2|G2]; try congruence.
+    - inversion G1; subst. exfalso. apply H1. rewrite <- E. apply (in_map (fun e => p_id (snd e)) _ _ G2).
+    - inversion G2; subst. exfalso. apply H1. rewrite E. apply (in_map (fun e => p_id (snd e)) _ _ G1).
+    - auto. }
+  subst. congruence.
+Qed.
+Lemma rdy_filter_other (f : string * qp -> bool) (v : qview) qid :
+  (forall e, In e v -> f e = false -> p_id (snd e) <> qid) -> rdy (filter f v) qid = rdy v qid.
+Proof.
+  induction v as [|[n p] t IH]; intros H; [reflexivity|]. cbn [filter]. rewrite rdy_cons. destruct (f (n, p)) eqn:Ef.
+  - rewrite rdy_cons. f_equal. apply IH. intros e He. apply H. right. exact He.
+  - rewrite IH by (intros e He; apply H; right; exact He). unfold qcontrib.
+    pose proof (H (n, p) (or_introl eq_refl) Ef) as Hne. cbn in Hne. apply N.eqb_neq in Hne. rewrite Hne. reflexivity.
+Qed.
+
+Lemma existsb_shape (v v' : qview) (g : N * bool * N * bool -> bool) : qshape v' = qshape v ->
+  existsb (fun e => g (p_id (snd e), p_excl (snd e), p_owner (snd e), p_active (snd e))) v' =
+  existsb (fun e => g (p_id (snd e), p_excl (snd e), p_owner (snd e), p_active (snd e))) v.
+Proof.
+  revert v'. induction v as [|[k p] t IH]; intros [|[k' p'] t'] E; cbn in *; try discriminate; auto.
+  inversion E; subst.
+  repeat match goal with
+         | H : p_id _ = p_id _ |- _ => rewrite H; clear H
+         | H : p_excl _ = p_excl _ |- _ => rewrite H; clear H
+         | H : p_owner _ = p_owner _ |- _ => rewrite H; clear H
+         | H : p_active _ = p_active _ |- _ => rewrite H; clear H
+         end.
+  f_equal. apply IH. auto.
+Qed.
+
+Lemma perm_flat_map_ext_in {A B} (f g : A -> list B) l : (forall x, In x l -> Permutation (f x) (g x)) -> Permutation (flat_map f l) (flat_map g l).
+Proof.
+  induction l as [|a t IH]; intros H; cbn; auto. apply Permutation_app; [apply H; left; reflexivity|]. apply IH. intros x Hx. apply H. right. exact Hx.
+Qed.
